@@ -18,6 +18,7 @@ RULE = (
     'representation switch); single frames are also read through traj[i] / get_structure(i) / iteration, on a never-queried object in half of the cases.  Oracle: harness ground truth (the unwrapped walk).  Non-trivial = the walk crosses '
     'a cell face or contains a hostile coordinate; distinct = SHA-1 of the input array.'
 )
+RULE += ' Added in rounds 8-10: slices / split parts not starting at frame 0 examined as trajectories of their own; chunks joined with extend() (the second chunk may repeat the previous last frame); a sixth of the cases shifted by up to thousands of cells.'
 ASSUMPTIONS = [
     'true per-step displacements stay below 0.4999 cell per coordinate (a step of exactly half a cell has no defined minimum image)',
     'equalities between floating-point results use 1e-9 (relative to the data); range [0,1) is checked strictly',
